@@ -95,7 +95,7 @@ def tt_qtt_roundtrip(d, q, r, seed, kind, e, cap):
     vt = A[tuple(I.T)]
     nrm = np.linalg.norm(A)
     tol = (e * np.sqrt(max(1, d * q)) * 4 + 1e-10) * max(nrm, 1e-300) if cap >= 10 ** 6 else None
-    if tol is not None and np.linalg.norm(vq - vt) > tol:
+    if tol is not None and not np.linalg.norm(vq - vt) <= tol:
         return FAIL(f'QTT[bits(i)] != TT[i]: err {np.linalg.norm(vq - vt):.3e} tol {tol:.3e}')
     W = teneva.qtt_to_tt(Z, q)
     msg = gen.wf(W, [n] * d)
